@@ -358,8 +358,21 @@ def b_type(ex, st, args, kwargs, n):
     return _type0(ex, st, args, kwargs, n)
 
 
+_OWN = {k_: L.ext[k_] for k_ in ['cvxopt.modeling._ismatrix', 'cvxopt.modeling._isdmatrix', 'cvxopt.modeling._isspmatrix', 'cvxopt.modeling._isscalar', 'cvxopt.modeling.matrix', 'builtins.len', 'builtins.type']}
+
+
+def install():
+    """(re)install this module's contracts of shared names: several spec
+    modules may live in one worker process"""
+    L.ext.update(_OWN)
+    L.hooks['instance_getitem'] = getitem
+    L.hooks['instance_setitem'] = setitem
+    L.hooks['instance_binop'] = binop
+    L.hooks['instance_inplace'] = inplace
+
 def setup_for(sc):
     def setup(ex, st, fid, fn):
+        install()
         fr = st.frames[fid]
         lg, n = z3.Int('lg'), z3.Int('n')
         st.pc += [lg >= 1, n >= 1]
